@@ -56,6 +56,13 @@ func twins(ts *gen.TypeSpec, vals map[string]any) (soft, wrapped jsonapi.Resourc
 	wrapped = gen.NewResource(&ss.Types[0])
 
 	for _, k := range gen.SortedKeys(vals) {
+		// An empty to-many list is left unset: a wrapped struct then holds a
+		// nil slice and a soft resource its default empty list, which the
+		// properties treat as the same (empty) value.
+		if ids, ok := vals[k].([]string); ok && len(ids) == 0 {
+			continue
+		}
+
 		soft.Set(k, gen.Clone(vals[k]))
 		wrapped.Set(k, gen.Clone(vals[k]))
 	}
